@@ -32,3 +32,100 @@ func VH_C13_order_int64()   { vhC13Order("int64") }
 func VH_C13_order_uint64()  { vhC13Order("uint64") }
 func VH_C13_order_float64() { vhC13Order("float64") }
 func VH_C13_order_string()  { vhC13Order("string") }
+
+// VH_C13_api — Collect order, Reverse, Limit, One and AssignIndex
+// through the public API, with ties allowed.
+func VH_C13_api() {
+	db, _ := vhOpenDB(vhCfgs[0])
+	var rows []vhRow
+	pre := vLen("pre", 0, vBound("PRE", 3))
+	for k := 0; k < pre; k++ {
+		o := vhNewObj()
+		err := db.InsertOrUpdate(o)
+		vAssert("C13.pre.insert", err == nil)
+		rows = append(rows, vhRow{o.UUID(), *o})
+	}
+	op := vhOps[vChoice("_sop", len(vhOps))]
+	p := vInt64("probe")
+	mk := func() *Search {
+		if vBound("AND", 0) > 0 {
+			return db.Search(&vObj{}, "S", "=", "s").And("A", op, p)
+		}
+		return db.Search(&vObj{}, "A", op, p)
+	}
+	full, err := mk().Collect()
+	vAssert("C13.collect.ok", err == nil)
+	for j := 1; j < len(full); j++ {
+		vAssert("C13.collect.nonincreasing", full[j-1].(*vObj).A >= full[j].(*vObj).A)
+	}
+	switch vChoice("what", 4) {
+	case 0: // Reverse is the mirror image in non-decreasing order
+		rev, err := mk().Reverse().Collect()
+		vAssert("C13.reverse.ok", err == nil && len(rev) == len(full))
+		for j := 1; j < len(rev); j++ {
+			vAssert("C13.reverse.nondecreasing", rev[j-1].(*vObj).A <= rev[j].(*vObj).A)
+		}
+		if len(rev) == len(full) {
+			for j := range rev {
+				vAssert("C13.reverse.mirror", rev[j].UUID() == full[len(full)-1-j].UUID())
+			}
+		}
+	case 1: // Limit(n) for an arbitrary n returns exactly the first min(n, matches)
+		n := vUint64("limit")
+		rev := vChoice("rev", 2) == 1
+		s := mk().Limit(n)
+		if rev {
+			s = s.Reverse()
+		}
+		lim, err := s.Collect()
+		vAssert("C13.limit.ok", err == nil)
+		want := uint64(len(full))
+		if n < want {
+			want = n
+		}
+		vAssert("C13.limit.count", uint64(len(lim)) == want)
+		for j := range lim {
+			if j < len(full) {
+				exp := full[j]
+				if rev {
+					exp = full[len(full)-1-j]
+				}
+				vAssert("C13.limit.prefix", lim[j].UUID() == exp.UUID())
+			}
+		}
+	case 2: // One returns the first element, or the no-object error iff empty
+		o, err := mk().One()
+		if len(full) == 0 {
+			vAssert("C13.one.empty", IsNoObjectFound(err))
+		} else {
+			vAssert("C13.one.ok", err == nil)
+			if err == nil {
+				vAssert("C13.one.first", o.UUID() == full[0].UUID())
+			}
+		}
+	case 3: // AssignIndex: every stored value, once each, non-increasing
+		var as []int64
+		err := db.AssignIndex(&vObj{}, "A", &as)
+		vAssert("C13.assignindex.ok", err == nil && len(as) == len(rows))
+		for j := 1; j < len(as); j++ {
+			vAssert("C13.assignindex.nonincreasing", as[j-1] >= as[j])
+		}
+		// multiset equality: every stored value occurs as often in the result
+		if len(as) == len(rows) {
+			for i := range rows {
+				ca, cr := 0, 0
+				for j := range as {
+					if as[j] == rows[i].o.A {
+						ca++
+					}
+				}
+				for k := range rows {
+					if rows[k].o.A == rows[i].o.A {
+						cr++
+					}
+				}
+				vAssert("C13.assignindex.multiset", ca == cr)
+			}
+		}
+	}
+}
